@@ -131,8 +131,14 @@ h("VerifValidateConfigRefuses", CF, CFF, "12 invalid classes, one at a time; the
 h("VerifValidateConfigAccepts", CF, CFF, "-", "a minimal sane configuration is accepted; the same with a port conflict is refused", strings=True)
 
 ACH = ["zz_verif_ac.go"]
+h("VerifUpdateActionResult", SV, ACH, "UpdateActionResult with one of 13 defect classes or none; inline stdout / output-file contents of symbolic length 1..4 MiB with or without digest; worker name given or not; every cache Put succeeds", "an invalid ActionResult is refused and stores nothing; an accepted one is stored once under its key as the serialisation of the uploaded message (worker filled in), inline bytes also stored in the CAS under their digest", unwind=16)
 h("VerifGetActionResultInline", SV, ACH, "stored result with stdout and one output file, each inline (1..4 MiB symbolic) or by digest (1..4 MiB symbolic, blob available); inline_stdout / inline_output_files requested or not; de-inlining Puts succeed", "GetActionResult: total inlined bytes <= 3 MiB budget, inlined bytes are the blob / the stored bytes, de-inlined only after storing under the true digest", unwind=16)
 h("VerifGetActionResultMiss", SV, ACH, "-", "validated miss maps to NotFound; nil request / digest rejected")
+
+HT = ["zz_verif_http.go"]
+h("VerifHTTPGet", SV, HT, "GET /cas/<h> or /ac/<h> (raw), Accept-Encoding with or without zstd, cache answers miss / error / stream of symbolic size", "HTTP GET: the read goes to the URL's namespace, compressed reads only from the CAS, body = the blob, Content-Length = size", unwind=16)
+h("VerifHTTPPut", SV, HT, "PUT /cas/<h> or /ac/<h> (raw): Content-Length, body length, max_blob_size symbolic; Content-Encoding none/identity/zstd/other; zstd body decodes to a symbolic length or is corrupt; cache Put fails with 507 or not", "HTTP PUT acknowledges only an upload stored under the declared size; size limit; 507 mapping", unwind=16)
+h("VerifHTTPPutAC", SV, HT + ACH, "validated PUT /ac/<h>: body 1..4096 bytes, wire or JSON, declared JSON or not, plain or zstd-wrapped, parses or not, one of 13 defect classes or none, worker given or not", "HTTP AC upload: invalid / unparseable / wrongly-typed bodies are client errors that store nothing; accepted ones are stored once as the wire serialisation of the uploaded message", unwind=16)
 
 # property -> (quick harnesses, additional thorough harnesses, assumptions, outside)
 CODEC = "zstd codec replaced by a contract stub: frames self-delimiting, Decode(Encode(x)) = x, anything else fails"
@@ -140,9 +146,9 @@ HASH = "sha256 replaced by a provenance model: collision-free, digest equals the
 FSM = "file system model with process-kill semantics (writes visible in program order); one read of a regular file returns all that is available"
 STUBS = ["prometheus, log: empty bodies", "fmt.Errorf / errors.Is modelled (text opaque, %w kept)", "time.Now fixed"]
 P = {
- "C01": (["VerifWriteZstd2", "VerifPutCasZstd", "VerifPutCasRaw", "VerifPutAC", "VerifBatchUpdateBlobs", "VerifBytestreamWrite2", "VerifBytestreamWriteZstd2"], ["VerifWriteZstd3", "VerifWriteIdentity", "VerifPutCasZstdProxy", "VerifPutCasRawProxy"],
+ "C01": (["VerifWriteZstd2", "VerifPutCasZstd", "VerifPutCasRaw", "VerifPutAC", "VerifBatchUpdateBlobs", "VerifBytestreamWrite2", "VerifBytestreamWriteZstd2", "VerifHTTPPut"], ["VerifWriteZstd3", "VerifWriteIdentity", "VerifPutCasZstdProxy", "VerifPutCasRawProxy"],
          [CODEC, HASH, FSM], ["real sha256 and zstd", "blobs of more than 3 chunks", "the HTTP/gRPC transports' own length enforcement"]),
- "C02": (["VerifReadUncompressed4", "VerifReadZstd4", "VerifReadIdentity", "VerifReadWrongSize", "VerifGetCasZstd", "VerifGetCasZstdAsZstd", "VerifGetCasRaw", "VerifGetAC", "VerifGetSpecial"],
+ "C02": (["VerifReadUncompressed4", "VerifReadZstd4", "VerifReadIdentity", "VerifReadWrongSize", "VerifGetCasZstd", "VerifGetCasZstdAsZstd", "VerifGetCasRaw", "VerifGetAC", "VerifGetSpecial", "VerifHTTPGet", "VerifBatchReadBlobs"],
          ["VerifReadUncompressed6", "VerifReadZstd6", "VerifGetCasRawAsZstd"], [CODEC, FSM], ["that a standard zstd decoder decodes the frames", "tables of more than 6 entries", "read offsets beyond the blob when the size is not given"]),
  "C03": (["VerifLRULemmas", "VerifLRUAdd3", "VerifLRUReserve3", "VerifLRUUnreserve", "VerifLRUGet", "VerifLRURemove", "VerifPutAC", "VerifGetAC", "VerifProxyGetAC"],
          ["VerifLRUAdd4", "VerifLRUReserve4", "VerifPutCasZstd", "VerifPutCasRaw", "VerifGetCasZstd", "VerifProxyGetCasRaw"], [FSM, CODEC, HASH], ["more live entries than the bound in one step", "sizes >= 2^61", "interleavings (C07)"]),
@@ -153,14 +159,14 @@ P = {
  "C08": (["VerifCrashPutCasRaw", "VerifCrashPutAC", "VerifCrashPutCasZstd"], [], [FSM, HASH, CODEC], ["power loss, write reordering, fsync (process-kill semantics only)", "kill during start-up migration", "kill during overwrite/eviction/backend fetch (upload into an empty cache only)"]),
  "C09": (["VerifLoad2", "VerifLoadDup", "VerifLoadExtras"], ["VerifLoad3"], [FSM, "access times are the model's (distinct) integers"], ["real readdir order and atime semantics (relatime)", "legacy v0/v1 layouts (migration code is executed only on a current layout)", "more than 3 files", "schedules other than round-robin"]),
  "C10": (["VerifFindMissing3", "VerifFindMissingProxy1", "VerifFindMissingBatch", "VerifFindMissingBatchProxy", "VerifFilterNonNil", "VerifContains"], ["VerifFindMissing4", "VerifFindMissingProxy2", "VerifFindMissingBatch2"], ["the backend is an arbitrary per-hash verdict"], ["hundreds of digests with all states symbolic", "512 real workers", "more than 2 preemptive context switches"]),
- "C11": (["VerifValidateFilesDirs", "VerifValidateSymlinks", "VerifValidateNil", "VerifGetActionResultInline", "VerifGetActionResultMiss"], [], ["strings are ASCII (Go byte strings and SMT code-point strings agree there)"], ["field-by-field fidelity of proto.Marshal/Unmarshal and protojson", "non-ASCII strings"]),
+ "C11": (["VerifValidateFilesDirs", "VerifValidateSymlinks", "VerifValidateNil", "VerifGetActionResultInline", "VerifGetActionResultMiss", "VerifUpdateActionResult", "VerifHTTPPutAC"], [], ["strings are ASCII (Go byte strings and SMT code-point strings agree there)"], ["field-by-field fidelity of proto.Marshal/Unmarshal and protojson", "non-ASCII strings"]),
  "C12": (["VerifProxyGetAC", "VerifProxyGetCasRaw", "VerifProxyGetCasZstd", "VerifPutRawProxy"], ["VerifProxyGetCasZstdZ", "VerifPutCasZstdProxy", "VerifPutCasRawProxy"], [FSM, CODEC, HASH, "the backend is an arbitrary cache.Proxy stub"], ["minio/azure/gcs SDK calls", "real HTTP body semantics"]),
  "C13": (["VerifGrpcBasicAuth", "VerifGrpcBasicAuthAccepts", "VerifGrpcMTLS", "VerifHTTPAuthWiring"], [], ["auth.CheckSecret is an arbitrary predicate", "strings are ASCII"], ["htpasswd hash checking, TLS handshake and certificate verification, LDAP", "whether grpc-go calls the interceptors for every method"]),
  "C14": (["VerifReadArbitrary2", "VerifReadZstd4", "VerifReadUncompressed4", "VerifGetCasZstd", "VerifGetSpecial", "VerifGetTree", "VerifBatchReadBlobs", "VerifBytestreamWrite2"], ["VerifReadArbitrary3", "VerifGetCasZstdAsZstd", "VerifGetCasRawAsZstd", "VerifProxyGetCasZstd"], [FSM, CODEC], ["panics inside stubbed libraries", "resource exhaustion by volume"]),
- "C15": (["VerifGrpcACKeyMangling", "VerifLookupKey", "VerifGetSpecial"], [], ["sha256 is injective on byte strings (digest texts are fresh 64-hex strings with pairwise (content equal <=> digest equal))", "strings are ASCII", "disk.Cache replaced by a recording stub"], ["sha256 itself", "non-ASCII instance names", "isolation after eviction (C03/C04)", "the HTTP path-prefix clause: harnesses VerifParseRequestURL / VerifHTTPGrpcSameKey exist but no solver decides 'every URL /I/ac/h matches ^/?(.*/)?(ac/|cas/)([a-f0-9]{64})$ with instance I' within budget (cvc5 and z3 time out at 60 s even with |I| <= 6), so the URL grammar is not claimed"]),
+ "C15": (["VerifGrpcACKeyMangling", "VerifLookupKey", "VerifGetSpecial", "VerifHTTPGet"], [], ["sha256 is injective on byte strings (digest texts are fresh 64-hex strings with pairwise (content equal <=> digest equal))", "strings are ASCII", "disk.Cache replaced by a recording stub"], ["sha256 itself", "non-ASCII instance names", "isolation after eviction (C03/C04)", "the HTTP path-prefix clause: harnesses VerifParseRequestURL / VerifHTTPGrpcSameKey exist but no solver decides 'every URL /I/ac/h matches ^/?(.*/)?(ac/|cas/)([a-f0-9]{64})$ with instance I' within budget (cvc5 and z3 time out at 60 s even with |I| <= 6), so the URL grammar is not claimed"]),
  "C16": (["VerifBytestreamWrite2", "VerifBytestreamWriteZstd2", "VerifQueryWriteStatus"], ["VerifBytestreamWrite3"], ["disk.Cache replaced by a contract stub (Put consumes the reader and accepts exactly the declared bytes)"], ["grpc-go's own stream behaviour", "more than 3 messages", "more than 2 preemptive context switches"]),
  "C17": (["VerifLRUReserve3", "VerifLRURemove", "VerifLRUAdd3", "VerifPutAC", "VerifProxyGetAC"], ["VerifLRUReserve4", "VerifPutCasZstd", "VerifPutCasRaw", "VerifProxyGetCasRaw"], [FSM], ["real unlink latency"]),
- "C18": (["VerifPutAC", "VerifPutCasRaw", "VerifContains", "VerifProxyGetAC", "VerifBatchUpdateBlobs", "VerifBytestreamWrite2"], ["VerifPutCasZstd", "VerifProxyGetCasRaw", "VerifProxyGetCasZstd"], [FSM, HASH], ["transport-level message size limits"]),
+ "C18": (["VerifPutAC", "VerifPutCasRaw", "VerifContains", "VerifProxyGetAC", "VerifBatchUpdateBlobs", "VerifBytestreamWrite2", "VerifHTTPPut"], ["VerifPutCasZstd", "VerifProxyGetCasRaw", "VerifProxyGetCasZstd"], [FSM, HASH], ["transport-level message size limits"]),
  "C19": (["VerifValidateConfigRefuses", "VerifValidateConfigAccepts"], [], ["net.SplitHostPort modelled by its contract (host:port / [host]:port)", "strings are ASCII"], ["the flags-versus-YAML agreement clause (urfave/cli and yaml.v3 are outside reach; F13/F14 candidates of DESIGN section 1 are not decided)", "environment-variable resolution", "setTLSConfig / setProxy / setLogger"]),
  "C20": (["VerifWriteZstd2", "VerifReadUncompressed4", "VerifReadZstd4", "VerifReadIdentity"], ["VerifWriteZstd3", "VerifReadUncompressed6", "VerifReadZstd6"], [CODEC, FSM], ["that chunk payloads are standard zstd frames", "files with more table entries than the bound"]),
 }
